@@ -547,7 +547,11 @@ func (m *Machine) call(caller *frame, site ssa.Instruction, fn value, args []val
 		ci, _ := site.(ssa.CallInstruction)
 		return m.callBuiltin(caller, ci, fn, args)
 	case *opaqueMethod:
-		return m.externalResult(fn.meth.Type().(*types.Signature), "method "+fn.meth.FullName()+" on opaque from "+fn.o.from, fn.o.noop)
+		msig := fn.meth.Type().(*types.Signature)
+		m.passCtx = ctxArg(msig, args)
+		r := m.externalResult(msig, "method "+fn.meth.FullName()+" on opaque from "+fn.o.from, fn.o.noop)
+		m.passCtx = nil
+		return r
 	case *nativeFn:
 		return fn.f(m, caller, args)
 	}
@@ -625,7 +629,10 @@ func (m *Machine) callSSA(caller *frame, site ssa.Instruction, fn *ssa.Function,
 	}
 	if fn.Blocks == nil || fi.noop {
 		if fi.noop {
-			return m.externalResult(fn.Signature, fn.String(), true)
+			m.passCtx = ctxArg(fn.Signature, args)
+			r := m.externalResult(fn.Signature, fn.String(), true)
+			m.passCtx = nil
+			return r
 		}
 		return m.externalResult(fn.Signature, fn.String(), false)
 	}
@@ -705,6 +712,11 @@ func (m *Machine) externalResult(sig *types.Signature, name string, noop bool) v
 		case *types.Interface:
 			if types.Identical(t, errorType) {
 				return iface{}
+			}
+			// a no-op that returns a context (tracer.Start, log/metric
+			// helpers) hands back the context it was given
+			if isContextType(t) && m.passCtx != nil {
+				return m.passCtx
 			}
 			return iface{t: t, v: &opaque{t: t, from: name, noop: noop}}
 		}
